@@ -635,6 +635,45 @@ fn q_pair(r: &mut Rng, valid: bool) -> String {
     format!("{key}={val}")
 }
 
+pub const EDGE_PREFIXES: &[&str] = &["?", "??", "&", "&&", "=", "==", ";", "#", "%3F", "+", " ", "%20", "%26", "?&", "&?", "?=", "/", "\u{feff}"];
+pub const EDGE_SUFFIXES: &[&str] = &["?", "??", "&", "&&", "=", "==", ";", "#", "#x", "%3F", "+", " ", "?=", "&?", "&=", "%"];
+
+/// Delimiters at the edges: an otherwise ordinary query string with `?`, `&`, `=`, `;`, `#`, ... put first, last or
+/// doubled in the middle. The extractor must see exactly the keys and values the framework's own decoder sees.
+fn edges(r: &mut Rng) -> String {
+    let n = 1 + r.below(2);
+    let mut parts: Vec<String> = (0..n)
+        .map(|_| {
+            let valid = r.chance(3, 4);
+            q_pair(r, valid)
+        })
+        .collect();
+    if !parts.iter().any(|p| p.starts_with("q=")) && r.chance(2, 3) {
+        parts.insert(0, format!("q={}", r.pick(&["kefir", "x", "a+b"])));
+    }
+    let mut s = parts.join("&");
+    let ops = 1 + r.below(2);
+    for _ in 0..ops {
+        match r.below(5) {
+            0 | 1 => s = format!("{}{}", r.pick(EDGE_PREFIXES), s),
+            2 => {
+                let suffix: &'static str = EDGE_SUFFIXES[r.below(EDGE_SUFFIXES.len())];
+                s.push_str(suffix);
+            }
+            3 => {
+                // double / replace the first pair separator
+                let with = *r.pick(&["&&", "&?", "?", ";", "&;", "&=&", "&#", "?&", "&%26"]);
+                s = if s.contains('&') { s.replacen('&', with, 1) } else { format!("{s}{with}limit=3") };
+            }
+            _ => {
+                let with = *r.pick(&["==", "=?", "?=", "=&", "=;", "%3D", "=="]);
+                s = s.replacen('=', with, 1);
+            }
+        }
+    }
+    s
+}
+
 pub fn gen_query_req(r: &mut Rng) -> QueryReq {
     let (query, class): (String, &str) = match r.below(100) {
         0..=24 => {
@@ -697,12 +736,13 @@ pub fn gen_query_req(r: &mut Rng) -> QueryReq {
             let parts: Vec<String> = (0..n).map(|_| format!("{}={}", r.pick(Q_KEYS_VALID), r.pick(Q_STR_VALUES))).collect();
             (parts.join("&"), "percent_and_unicode")
         }
-        _ => {
+        90..=93 => {
             // many parameters
             let n = 20 + r.below(200);
             let parts: Vec<String> = (0..n).map(|i| format!("k{}={}", i % 37, i)).collect();
             (parts.join("&"), "many")
         }
+        _ => (edges(r), "edges"),
     };
     let via = if r.chance(1, 2) { "from_query" } else { "from_request" };
     QueryReq { query, via, class: class.to_string() }
